@@ -12,7 +12,7 @@ def items(ctx):
     q = ctx.quick
     rng = ctx.rng("c14")
     out = []
-    for _ in range(900 if q else 15000):
+    for _ in range(2000 if q else 15000):
         nd = rng.choice([1, 1, 1, 1, 2])
         lq = rng.randint(1, 4)
         vals = rng.choice([(0, 1, 3), (0, 1, 2, 5), (-3, -1, 0, 2)])
@@ -47,7 +47,7 @@ def items(ctx):
         out.append({"q": qs, "cands": cands, "S": 1, "set": st, "history": hist, "variants": variants})
     # lower bound under stress: queries SHORTER than the candidates, narrow windows, a wider alphabet and k = 1-2,
     # so that an unsound bound (envelope too narrow on one side) prunes a true nearest neighbour
-    for _ in range(500 if q else 8000):
+    for _ in range(1000 if q else 8000):
         lq = rng.randint(2, 4)
         vals = (0, 1, 2, 3, 4, 5)
         qs = [[rng.choice(vals)] for _ in range(lq)]
